@@ -655,6 +655,13 @@ func cmdLife(args []string) {
 				s = A
 			case 1:
 				s = B
+			case 2, 3, 4, 5, 6, 7, 8, 9, 10, 11, 12, 13, 14, 15, 16, 17, 18, 19, 20, 21, 22, 23, 24, 25:
+				// a deterministic sweep of the scalar fields over their boundary values (both rendered by Config() through a
+				// special case: 0 / -1 / default max-age, 0 / 204 status)
+				s = A
+				s.Meths = []string{"PUT"} // successful preflights exist, so that max-age and status show
+				s.MaxAge = []int{-1, 0, 1, 2, 4, 5, 6, 10, 60, 600, 86399, 86400}[(ncases-2)%12]
+				s.Status = []int{204, 200, 201, 203, 205, 206, 226, 250, 255, 256, 298, 299}[(ncases-2+(ncases-2)/12)%12]
 			default:
 				s = randSem(rng)
 				if rng.Intn(3) == 0 { // IPv4 / bracketed IPv6 literal hosts, trailing dots
